@@ -107,6 +107,7 @@ func (w *txWorld) runTx(in c08In) c08Obs {
 			strings.Contains(lower, "invalid stringkey") || strings.Contains(lower, "invalid denom") {
 			obs.Reached, obs.Class = true, "panic"
 			obs.PanicOOG = strings.Contains(lower, "out of gas")
+			obs.PanicInt = strings.Contains(lower, "integer overflow")
 		} else if strings.Contains(lower, "out of gas") {
 			// the gas meter's panic travelled up to baseapp's out-of-gas recovery: the tx was aborted
 			obs.Reached, obs.Class, obs.PanicOOG = true, "panic", true
